@@ -84,13 +84,20 @@ mod native {
     }
 }
 
+/// Every symbolic value passes through this function: the runner finds the solver's values in the
+/// CBMC trace as the actual-parameter assignments to `zv_sym_val`, in execution order.
+#[cfg(kani)]
+#[inline(never)]
+pub fn zv_rec<T>(zv_sym_val: T) -> T {
+    zv_sym_val
+}
+
 macro_rules! impl_sym_int {
     ($($t:ty),*) => {$(
         impl Sym for $t {
-            // the local is named so that the runner can find the solver's value in the CBMC trace
             #[cfg(kani)]
             #[inline(never)]
-            fn sym() -> $t { let zv_sym_val: $t = kani::any(); zv_sym_val }
+            fn sym() -> $t { zv_rec::<$t>(kani::any()) }
             #[cfg(not(kani))]
             fn sym() -> $t {
                 let b = native::pop(core::mem::size_of::<$t>());
@@ -107,9 +114,9 @@ impl Sym for bool {
     #[cfg(kani)]
     #[inline(never)]
     fn sym() -> bool {
-        let zv_sym_val: u8 = kani::any();
-        kani::assume(zv_sym_val <= 1);
-        zv_sym_val == 1
+        let b: u8 = kani::any();
+        kani::assume(b <= 1);
+        zv_rec::<u8>(b) == 1
     }
     #[cfg(not(kani))]
     fn sym() -> bool {
